@@ -70,10 +70,10 @@ func halves(f float64) string { return strconv.FormatInt(int64(f*2), 10) }
 
 func parseFlow(s string) *flow.Rule {
 	f := strings.Split(s, ",")
-	if len(f) != 14 {
+	if len(f) != 15 {
 		panic("bad flow rule " + s)
 	}
-	return &flow.Rule{Resource: str(f[0]), TokenCalculateStrategy: flow.TokenCalculateStrategy(vh.I(f[1])),
+	return &flow.Rule{ID: str(f[14]), Resource: str(f[0]), TokenCalculateStrategy: flow.TokenCalculateStrategy(vh.I(f[1])),
 		ControlBehavior: flow.ControlBehavior(vh.I(f[2])), Threshold: half(f[3]), RelationStrategy: flow.RelationStrategy(vh.I(f[4])),
 		RefResource: str(f[5]), MaxQueueingTimeMs: uint32(vh.U(f[6])), WarmUpPeriodSec: uint32(vh.U(f[7])), WarmUpColdFactor: uint32(vh.U(f[8])),
 		StatIntervalInMs: uint32(vh.U(f[9])), LowMemUsageThreshold: vh.I(f[10]), HighMemUsageThreshold: vh.I(f[11]),
@@ -81,29 +81,29 @@ func parseFlow(s string) *flow.Rule {
 }
 
 func showFlow(r *flow.Rule) string {
-	return fmt.Sprintf("%s,%d,%d,%s,%d,%s,%d,%d,%d,%d,%d,%d,%d,%d", ustr(r.Resource), r.TokenCalculateStrategy, r.ControlBehavior, halves(r.Threshold),
+	return fmt.Sprintf("%s,%d,%d,%s,%d,%s,%d,%d,%d,%d,%d,%d,%d,%d,%s", ustr(r.Resource), r.TokenCalculateStrategy, r.ControlBehavior, halves(r.Threshold),
 		r.RelationStrategy, ustr(r.RefResource), r.MaxQueueingTimeMs, r.WarmUpPeriodSec, r.WarmUpColdFactor, r.StatIntervalInMs,
-		r.LowMemUsageThreshold, r.HighMemUsageThreshold, r.MemLowWaterMarkBytes, r.MemHighWaterMarkBytes)
+		r.LowMemUsageThreshold, r.HighMemUsageThreshold, r.MemLowWaterMarkBytes, r.MemHighWaterMarkBytes, ustr(r.ID))
 }
 
 func parseIso(s string) *isolation.Rule {
 	f := strings.Split(s, ",")
-	if len(f) != 3 {
+	if len(f) != 4 {
 		panic("bad isolation rule " + s)
 	}
-	return &isolation.Rule{Resource: str(f[0]), MetricType: isolation.MetricType(vh.I(f[1])), Threshold: uint32(vh.U(f[2]))}
+	return &isolation.Rule{ID: str(f[3]), Resource: str(f[0]), MetricType: isolation.MetricType(vh.I(f[1])), Threshold: uint32(vh.U(f[2]))}
 }
 
 func showIso(r *isolation.Rule) string {
-	return fmt.Sprintf("%s,%d,%d", ustr(r.Resource), r.MetricType, r.Threshold)
+	return fmt.Sprintf("%s,%d,%d,%s", ustr(r.Resource), r.MetricType, r.Threshold, ustr(r.ID))
 }
 
 func parseHot(s string) *hotspot.Rule {
 	f := strings.Split(s, ",")
-	if len(f) != 11 {
+	if len(f) != 12 {
 		panic("bad hotspot rule " + s)
 	}
-	r := &hotspot.Rule{Resource: str(f[0]), MetricType: hotspot.MetricType(vh.I(f[1])), ControlBehavior: hotspot.ControlBehavior(vh.I(f[2])),
+	r := &hotspot.Rule{ID: str(f[11]), Resource: str(f[0]), MetricType: hotspot.MetricType(vh.I(f[1])), ControlBehavior: hotspot.ControlBehavior(vh.I(f[2])),
 		ParamIndex: int(vh.I(f[3])), ParamKey: str(f[4]), Threshold: vh.I(f[5]), MaxQueueingTimeMs: vh.I(f[6]), BurstCount: vh.I(f[7]),
 		DurationInSec: vh.I(f[8]), ParamsMaxCapacity: vh.I(f[9])}
 	switch it := vh.U(f[10]); it {
@@ -128,52 +128,46 @@ func showHot(r *hotspot.Rule) string {
 			items = "many"
 		}
 	}
-	mq, bc := "*", "*"
-	if r.ControlBehavior == hotspot.Throttling {
-		mq = strconv.FormatInt(r.MaxQueueingTimeMs, 10)
-	}
-	if r.ControlBehavior == hotspot.Reject {
-		bc = strconv.FormatInt(r.BurstCount, 10)
-	}
-	return fmt.Sprintf("%s,%d,%d,%d,%s,%d,%s,%s,%d,%d,%s", ustr(r.Resource), r.MetricType, r.ControlBehavior, r.ParamIndex, ustr(r.ParamKey),
-		r.Threshold, mq, bc, r.DurationInSec, r.ParamsMaxCapacity, items)
+	return fmt.Sprintf("%s,%d,%d,%d,%s,%d,%d,%d,%d,%d,%s,%s", ustr(r.Resource), r.MetricType, r.ControlBehavior, r.ParamIndex, ustr(r.ParamKey),
+		r.Threshold, r.MaxQueueingTimeMs, r.BurstCount, r.DurationInSec, r.ParamsMaxCapacity, items, ustr(r.ID))
 }
 
 func parseCb(s string) *cb.Rule {
 	f := strings.Split(s, ",")
-	if len(f) != 9 {
+	if len(f) != 10 {
 		panic("bad circuit breaker rule " + s)
 	}
-	return &cb.Rule{Resource: str(f[0]), Strategy: cb.Strategy(vh.U(f[1])), RetryTimeoutMs: uint32(vh.U(f[2])), MinRequestAmount: vh.U(f[3]),
+	return &cb.Rule{Id: str(f[9]), Resource: str(f[0]), Strategy: cb.Strategy(vh.U(f[1])), RetryTimeoutMs: uint32(vh.U(f[2])), MinRequestAmount: vh.U(f[3]),
 		StatIntervalMs: uint32(vh.U(f[4])), StatSlidingWindowBucketCount: uint32(vh.U(f[5])), MaxAllowedRtMs: vh.U(f[6]),
 		Threshold: half(f[7]), ProbeNum: vh.U(f[8])}
 }
 
 func showCb(r *cb.Rule) string {
-	return fmt.Sprintf("%s,%d,%d,%d,%d,%d,%d,%s,%d", ustr(r.Resource), r.Strategy, r.RetryTimeoutMs, r.MinRequestAmount, r.StatIntervalMs,
-		r.StatSlidingWindowBucketCount, r.MaxAllowedRtMs, halves(r.Threshold), r.ProbeNum)
+	return fmt.Sprintf("%s,%d,%d,%d,%d,%d,%d,%s,%d,%s", ustr(r.Resource), r.Strategy, r.RetryTimeoutMs, r.MinRequestAmount, r.StatIntervalMs,
+		r.StatSlidingWindowBucketCount, r.MaxAllowedRtMs, halves(r.Threshold), r.ProbeNum, ustr(r.Id))
 }
 
 func parseSys(s string) *system.Rule {
 	f := strings.Split(s, ",")
-	if len(f) != 3 {
+	if len(f) != 4 {
 		panic("bad system rule " + s)
 	}
-	return &system.Rule{MetricType: system.MetricType(vh.U(f[0])), TriggerCount: half(f[1]), Strategy: system.AdaptiveStrategy(vh.I(f[2]))}
+	return &system.Rule{ID: str(f[3]), MetricType: system.MetricType(vh.U(f[0])), TriggerCount: half(f[1]), Strategy: system.AdaptiveStrategy(vh.I(f[2]))}
 }
 
 func showSys(r *system.Rule) string {
-	return fmt.Sprintf("%d,%s,%d", r.MetricType, halves(r.TriggerCount), r.Strategy)
+	return fmt.Sprintf("%d,%s,%d,%s", r.MetricType, halves(r.TriggerCount), r.Strategy, ustr(r.ID))
 }
 
 func parseOut(s string) *outlier.Rule {
 	f := strings.Split(s, ";")
-	if len(f) != 3 {
+	if len(f) != 6 {
 		panic("bad outlier rule " + s)
 	}
-	r := &outlier.Rule{MaxEjectionPercent: half(f[0]), RecoveryIntervalMs: uint32(vh.U(f[1]))}
-	if f[2] != "-" {
-		r.Rule = parseCb(f[2])
+	r := &outlier.Rule{MaxEjectionPercent: half(f[0]), RecoveryIntervalMs: uint32(vh.U(f[1])), EnableActiveRecovery: f[2] == "1",
+		RecycleIntervalS: uint32(vh.U(f[3])), MaxRecoveryAttempts: uint32(vh.U(f[4]))}
+	if f[5] != "-" {
+		r.Rule = parseCb(f[5])
 	}
 	return r
 }
@@ -183,7 +177,11 @@ func showOut(r *outlier.Rule) string {
 	if r.Rule != nil {
 		in = showCb(r.Rule)
 	}
-	return fmt.Sprintf("%s;%d;%s", halves(r.MaxEjectionPercent), r.RecoveryIntervalMs, in)
+	act := 0
+	if r.EnableActiveRecovery {
+		act = 1
+	}
+	return fmt.Sprintf("%s;%d;%d;%d;%d;%s", halves(r.MaxEjectionPercent), r.RecoveryIntervalMs, act, r.RecycleIntervalS, r.MaxRecoveryAttempts, in)
 }
 
 func outcome(ch bool, err error) string {
